@@ -114,6 +114,9 @@ def quantities(kind, arr, shapes):
         inds = np.arange(len(arr) - 1, -1, -1)
         q["ib_inds"] = np.asarray(arr.intersects_bounds(BOXES[0], inds))
     q["hd"] = np.asarray(arr.hilbert_distance(total_bounds=(0.0, 0.0, 8.0, 8.0), p=5))
+    # box intersection through the array's own (lazily built or inherited) spatial index, and the selection .cx makes with it
+    q["sindex"] = np.sort(np.asarray(arr.sindex.intersects(BOXES[0]), dtype="int64"))
+    q["cx_isna"] = np.asarray(arr.cx[BOXES[0][0]:BOXES[0][2], BOXES[0][1]:BOXES[0][3]].bounds, dtype="float64").reshape(-1, 4)
     if kind == "point":
         for i, sh in enumerate(shapes):
             q[f"int{i}"] = np.asarray(arr.intersects(sh))
@@ -207,6 +210,8 @@ def run(tier: str, seed: int) -> int:
                     big = geom.make_array(kind, pad[:1] + src_elems, geom.IDENT, subtype)
                     src_arr = type(big)._concat_same_type([big[1:1], big[1:]])
                 via_series = bool((h // 6) % 2)
+                if (h // 24) % 2 == 0 and len(src_arr):
+                    src_arr.sindex  # noqa: B018   history: the source already carries a spatial index when the derivations start
                 arr = src_arr
                 cur = list(st["src"])
                 desc = [f"{type(src_arr).__name__}[{subtype}] source {[geom.to_py(kind, e) for e in src_elems]} (backing {['fresh', 'slice of a larger array', 'concat'][backing]}"
